@@ -185,6 +185,14 @@ Section Hier.
                            end) tys)
           (fun l => Ok (map fst (filter snd l))).
 
+  (* sort_types: what the comparison of the earlier type t1 with the later type t2 adds to the dependency graph --
+     Some true: t2 waits for t1 (deps[t2].add(t1)), Some false: t1 waits for t2, None: nothing *)
+  Definition edge_dir (o : order) : option bool :=
+    match o with LESS => Some true | MORE => Some false | _ => None end.
+
+  (* TypeMap.__missing__: the level given to the types of round r out of nr rounds (rounds counted from the last) *)
+  Definition level_index (nr r : nat) : nat := nr - 1 - r.
+
   (* dependency edges among indexed nodes: (i, j) means node j must wait for node i (t_i LESS t_j).
      Only pairs i < j are compared, in one direction (mro.py L165-172). *)
   Fixpoint edges_from (i : nat) (ti : ty) (j : nat) (rest : list ty) : res (list (nat * nat)) :=
@@ -195,10 +203,10 @@ Section Hier.
         | None => Err EFuel
         | Some o =>
             rbind (edges_from i ti (S j) r) (fun es =>
-              Ok (match o with
-                  | LESS => (i, j) :: es
-                  | MORE => (j, i) :: es
-                  | _ => es
+              Ok (match edge_dir o with
+                  | Some true => (i, j) :: es
+                  | Some false => (j, i) :: es
+                  | None => es
                   end))
         end
     end.
@@ -242,7 +250,7 @@ Section Hier.
           let nr := length rounds in
           Ok (concat (map (fun p : nat * list nat =>
                              let (r, grp) := p in
-                             map (fun n => (nth n av (Cls 0), nr - 1 - r)) grp)
+                             map (fun n => (nth n av (Cls 0), level_index nr r)) grp)
                           (combine (seq 0 nr) rounds)))
       end)).
 
